@@ -7,14 +7,16 @@
      "size"      Must(!swap_file_sz || le.size == swap_file_sz) at the end of finalizeOrThrow  (size-short entries)
      "own"       after the walk, every slot of the entry's `more` list must be finalized       (foreign slots / leftovers)
      "undo"      a failed finalizeOrThrow clears the `finalized` marks it has set (needed with "own": a mark left on a
-                 slot of another entry by a failed walk would otherwise pass for that entry's own visit) *)
+                 slot of another entry by a failed walk would otherwise pass for that entry's own visit)
+     "version"   (design experiment for C16, not proposed: it would reject entries whose headers were updated) sameEntry()
+                 also compares DbCellHeader::version with the version of the chain being loaded; needs a `ver` field in H *)
 EXTENDS RockDb, TLC
 
 InSeq(x, q) == \E i \in 1..Len(q) : q[i] = x
 EmptyAnchor == [key |-> 0, start |-> 0, sfs |-> 0, w |-> FALSE]          \* StoreMapAnchor() / rewind(): start = 0
 InitSt(n, kf, fix) ==
   [n |-> n, kf |-> kf, fix |-> fix, pos |-> 0, crash |-> "",
-   le |-> [f \in 0..(n - 1) |-> [state |-> "Empty", anch |-> FALSE, size |-> 0]],                  \* LoadingEntry
+   le |-> [f \in 0..(n - 1) |-> [state |-> "Empty", anch |-> FALSE, size |-> 0, ver |-> 0]],        \* LoadingEntry
    ls |-> [s \in 0..(n - 1) |-> [more |-> 0 - 1, mapped |-> FALSE, fin |-> FALSE, freed |-> FALSE]],  \* LoadingSlot
    an |-> [f \in 0..(n - 1) |-> EmptyAnchor],                                                    \* sd->map anchors
    sl |-> [s \in 0..(n - 1) |-> [size |-> 0, next |-> 0 - 1]],                                     \* sd->map slices
@@ -138,10 +140,12 @@ UseNewSlot(st, s, h) ==
   IN IF state = "Empty"
      THEN IF st.an[f].key = 0 /\ ~st.an[f].w                                   \* openForWritingAt(fileno, false)
           THEN AddSlotToEntry([st EXCEPT !.an[f] = [key |-> h.key, start |-> 0 - 1, sfs |-> 0, w |-> TRUE],
-                                         !.le[f] = [state |-> "Loading", anch |-> FALSE, size |-> 0]], f, s, h)
+                                         !.le[f] = [state |-> "Loading", anch |-> FALSE, size |-> 0,
+                                                    ver |-> IF "version" \in st.fix THEN h.ver ELSE 0]], f, s, h)
           ELSE FreeUnusedSlot([st EXCEPT !.le[f].state = "Ignored"], s)
      ELSE IF state = "Loading"
-     THEN IF st.an[f].key = h.key THEN AddSlotToEntry(st, f, s, h)               \* sameEntry()
+     THEN IF st.an[f].key = h.key /\ ("version" \in st.fix => st.le[f].ver = h.ver)
+          THEN AddSlotToEntry(st, f, s, h)                                       \* sameEntry()
           ELSE FreeUnusedSlot(FreeBadEntry(st, f), s)                            \* duplicated
      ELSE IF state = "Loaded"
      THEN FreeUnusedSlot(MapFreeEntry([st EXCEPT !.le[f].state = "Corrupted"], f), s)
